@@ -106,14 +106,16 @@ func (ctx *Ctx) cloop(node *node, tpl *Tpl, w io.Writer) {
 
 		// Handle break/continue cases.
 		if err == ErrBreakLoop || lerr == ErrLBreakLoop {
-			if ctx.brkD > 0 {
-				ctx.brkD--
-			}
 			break
 		}
 		if err == ErrContLoop {
 			continue
 		}
+	}
+
+	// This loop is one of the loops a pending break/lazybreak N has to end.
+	if ctx.brkD > 0 {
+		ctx.brkD--
 	}
 
 	if c == 0 && len(node.child) > 1 && node.child[1].typ == typeCondFalse {
